@@ -186,10 +186,19 @@ def _k2():
     return kafe2
 
 
-def _data(dtype, v, variant="base", poisson=False):
+_WIGGLE = np.array([0.5, -0.8, 0.3, 1.0, -0.6, 0.2, -1.0, 0.7])
+
+
+def _data(dtype, v, variant="base", poisson=False, model=None):
+    """data of the valuation; for exponential models the y values follow an exponential (fitted problems must be
+    well-posed, DESIGN 3.4), for everything else the (roughly linear) base data"""
     val = V(v, N)
     if dtype == "xy":
-        y = val.yint if poisson else val.y
+        y = val.y
+        if model in ("expo", "sympy-exp"):
+            y = 1.3 * np.exp(0.27 * val.x) * (1.0 + 0.05 * _WIGGLE) * (1.0 + 0.15 * v)
+        if poisson:
+            y = np.round(y * 3.0 + 2.0)
         if variant == "nano":
             return val.x, y * 1e-9
         return val.x, y
@@ -373,7 +382,7 @@ def build_fit(spec):
     with warnings.catch_warnings():
         warnings.simplefilter("ignore")
         if ft == "xy":
-            x, y = _data("xy", v, variant, poisson)
+            x, y = _data("xy", v, variant, poisson, spec["model"])
             fit = k2.XYFit([x, y], FUNCS[spec["model"]], **(dict(cost_function=cost_arg, **kw) if cost else kw))
         elif ft == "indexed":
             _, y = _data("indexed", v, variant, poisson)
